@@ -161,3 +161,9 @@ T("c11-guard-order", ["C11"], RP, "        if not self.magic_read and len(self.b
 T("c19-connected-order", ["C19"], MGR, "        self.connected_peers[key] = remote_peer\n        if key in self.disconnected_peers:\n            del self.disconnected_peers[key]\n", "        if key in self.disconnected_peers:\n            del self.disconnected_peers[key]\n        self.connected_peers[key] = remote_peer\n")
 T("c19-pop-form", ["C19"], MGR, "        self._sanity_check()\n\n        for disconnected_peer in list(self.disconnected_peers.values()):", "        self._sanity_check()\n        # twin\n\n        for disconnected_peer in list(self.disconnected_peers.values()):")
 T("c19-backoff-shift", ["C19"], RP, "            TIME_TO_SECOND_CONNECTION_ATTEMPT * pow(2, self.ban_score),", "            TIME_TO_SECOND_CONNECTION_ATTEMPT * 2 ** self.ban_score,")
+
+T("c20-merge-handlers", ["C20"], LP, "        except OSError as e:  # e.g. ConnectionRefusedError, \"Bad file descriptor\"\n            # no print-to-screen for this one\n            self.logger.info(\"%15s Disconnecting remote peer %s\" % (remote_peer.host, e))\n            self.disconnect(remote_peer, \"OS error\")\n\n",
+  "")
+T("c10-range-form", ["C10"], RP, "            for height in range(start_height, min(start_height + GET_BLOCKS_INVENTORY_SIZE, max_height))", "            for height in range(start_height, min(max_height, GET_BLOCKS_INVENTORY_SIZE + start_height))")
+T("c20-dispatch-elif", ["C20", "C10"], RP, "        if message.data_type == DATA_BLOCK:\n            return self.handle_block_received(header, message)\n\n        if message.data_type == DATA_TRANSACTION:\n            return self.handle_transaction_received(header, message)\n",
+  "        if message.data_type == DATA_BLOCK:\n            return self.handle_block_received(header, message)\n        elif message.data_type == DATA_TRANSACTION:\n            return self.handle_transaction_received(header, message)\n")
